@@ -105,6 +105,12 @@ func genPairScenarios(tier string) []*Scenario {
 			out = append(out, &Scenario{ID: id, Prop: "C05", Seed: seed, Threads: [][][]string{{c("BLPOP", k, "1")}, {c("@sleep", "100"), m}}, Atomic: true, Gen: true, Timed: true})
 		}
 	}
+	// a blocked pop against a burst of pushes: a client that has been woken must get back to its list
+	// however many pushes follow before it does (one key; two keys with the burst on the second one)
+	out = append(out, &Scenario{ID: "pair:blocking:none:BLPOP | RPUSH RPUSH RPUSH", Prop: "C05",
+		Threads: [][][]string{{c("BLPOP", k, "1")}, {c("@sleep", "100"), c("RPUSH", k, "a"), c("RPUSH", k, "b"), c("RPUSH", k, "c")}}, Atomic: true, Gen: true, Timed: true})
+	out = append(out, &Scenario{ID: "pair:blocking:none:BLPOP two keys | RPUSH RPUSH RPUSH second key", Prop: "C05",
+		Threads: [][][]string{{c("BLPOP", k, "@k2", "1")}, {c("@sleep", "100"), c("RPUSH", "@k2", "a"), c("RPUSH", "@k2", "b"), c("RPUSH", "@k2", "c")}, {c("LLEN", k)}}, Atomic: true, Gen: true, Timed: true})
 	// (the partner key kk lives in another shard: two keys in one shard map would make KEYS visit them
 	// in Go's random map order, and with it the order of its lazy-expiry lock operations)
 	kk := "@k2"
